@@ -104,13 +104,14 @@ def pushSparse (gs : GState) (key : Key) (cyc : Nat) (v : Int) : Except Err GSta
   | some _ => .error .other
 
 /-- `dense_record_impl::eval` (dense branch): `offset - size` is computed in `size_t`, so a buffer LONGER than
-    the current cycle wraps past `max_dense_cycles` and throws `logic_error`; otherwise holes are padded so
-    that the index matches the cycle. -/
+    the current cycle wraps past `max_dense_cycles` and throws (an exception raised inside a node evaluation
+    leaves `run()` wrapped by the engine: class `other`); otherwise holes are padded so that the index matches
+    the cycle. -/
 def pushDense (gs : GState) (key : Key) (cyc : Nat) (v : Int) : Except Err GState :=
   match (get gs key).getD (.dense []) with
   | .dense xs =>
-    if xs.length > cyc then .error .logic
-    else if cyc - xs.length > maxDenseCycles then .error .logic
+    if xs.length > cyc then .error .other
+    else if cyc - xs.length > maxDenseCycles then .error .other
     else .ok (set gs key (.dense (xs ++ List.replicate (cyc - xs.length) none ++ [some v])))
   | _ => .error .other
 
